@@ -319,6 +319,10 @@ def plan(tier, seed):
     specs.append(dict(name="nest-exhaustive", kind="nestall", maxlen=5 if tier == "quick" else 6))
     for i in range(2):
         specs.append(dict(name="nest-random-%d" % i, kind="nestrandom", n=4000 if tier == "quick" else 50000))
+    # once more with the library's debug tracing switched on
+    specs.append(dict(name="tracing-lists", kind="lists", n=500 if tier == "quick" else 5000, big=False, tracing=True))
+    specs.append(dict(name="tracing-random", kind="random", n=2000 if tier == "quick" else 20000, tracing=True))
+    specs.append(dict(name="tracing-nest", kind="nestrandom", n=1000 if tier == "quick" else 10000, tracing=True))
     return specs
 
 
